@@ -14,6 +14,16 @@ func (p *Parser) parseBlock(parser *Parser) (Node, error) {
 	blockName := parser.tokens[parser.tokenIndex].Value
 	parser.tokenIndex++
 
+	// A template defines a block once: with two definitions only one of the
+	// bodies could ever be rendered
+	if first, dup := parser.blockNames[blockName]; dup {
+		return nil, fmt.Errorf("block '%s' is already defined at line %d (line %d)", blockName, first, blockLine)
+	}
+	if parser.blockNames == nil {
+		parser.blockNames = map[string]int{}
+	}
+	parser.blockNames[blockName] = blockLine
+
 	// Expect the block end token
 	if parser.tokenIndex >= len(parser.tokens) || !isBlockEndToken(parser.tokens[parser.tokenIndex].Type) {
 		return nil, fmt.Errorf("expected block end token after block name at line %d", blockLine)
